@@ -846,7 +846,8 @@ theorem init_groups_tie :
 images, the expiry loop (Model/FanOutMicro.lean, Model/FanOutRepl.lean) -/
 
 open LinVerif.FanOut.Micro in
-/-- Consume ‖ Ack ‖ Sync ‖ Put at the granularity of single loads / stores of shared fields, the
+/-- Consume ‖ Ack ‖ Sync ‖ Put ‖ SetConsumedSeq-inside-the-window (the rewinder `wSet`, round 12) at the
+granularity of single loads / stores of shared fields, the
 lock regions of the pinned source (`access_tie`): from ANY state satisfying the sequential invariants,
 after ANY enabled schedule of micro-steps of the four threads (no explicit index reset) — at every
 intermediate point, threads mid-method included — the queue ack is in [-1, appended], every group has
@@ -872,14 +873,15 @@ theorem micro_consume_next (s : State) (hb : Base s) (ho : Order s) (ha : Above 
     (h : mrun Shape.pinned (MState.ofState s) ops = some ms) (hs : mstep Shape.pinned ms o = some ms')
     (k : Nat) (x x' : Group) (hx : ms.sh.grp k = some x) (hx' : ms'.sh.grp k = some x') :
     x'.consumed = x.consumed ∨
-    (o = .cStore ∧ x'.consumed = x.consumed + 1 ∧ x'.consumed ≤ ms'.sh.appended ∧ ms'.c = .stored k x'.consumed) := by
+    (o = .cStore ∧ x'.consumed = x.consumed + 1 ∧ x'.consumed ≤ ms'.sh.appended ∧ ms'.c = .stored k x'.consumed) ∨
+    (o = .wSet k x'.consumed ∧ x.ack ≤ x'.consumed ∧ x'.consumed ≤ ms.sh.appended ∧ x'.ack = x.ack) := by
   have h0 : Inv (MState.ofState s) :=
     Inv.ofState s hb.q.ackLo hb.q.ackLe (fun g x hx => ⟨ha g x hx, ho.live hb g x hx⟩) hb.grp
   have hi := Inv.run ops _ ms h0 hr h
   have hi' := hi.step hro hs
-  rcases consumed_step Shape.pinned hro hs k with e | ⟨e, hh, app, x0, hc, hx0, hle, hg', hc'⟩
+  rcases consumed_step Shape.pinned hro hs k with e | ⟨e, hh, app, x0, hc, hx0, hle, hg', hc'⟩ | ⟨n, x0, e, hx0, h1, h2, hg'⟩
   · left; rw [hx, hx'] at e; simpa using e
-  · right
+  · right; left
     rw [hx] at hx0; cases hx0
     rw [hx'] at hg'; cases hg'
     have hci := hi.ci
@@ -887,6 +889,56 @@ theorem micro_consume_next (s : State) (hb : Base s) (ho : Order s) (ha : Above 
     obtain ⟨x1, hx1, hh1, _⟩ := hci
     rw [hx] at hx1; cases hx1
     exact ⟨e, hh1, (hi'.ord k _ hx').2.2, hc'⟩
+  · right; right
+    rw [hx] at hx0; cases hx0
+    rw [hx'] at hg'; cases hg'
+    exact ⟨e, h1, h2, rfl⟩
+
+open LinVerif.FanOut.Micro in
+/-- (3) under the interleaving, rewinds included (round 12): a micro-step changes a group's acknowledged
+position only if it is the Store of Ack, and then to an `n` with ack ≤ n ≤ consumed for the positions of
+THAT moment — although `SetConsumedSeq` calls of another goroutine (`wSet`, the replicators' re-consume)
+may have pulled the consumed position back at any earlier point, also between this Ack's call and its
+read lock. An acknowledgement above the current consumed position (e.g. of a batch handed out before the
+rewind) is never stored: the window is the current one, not the high-water mark of what was handed out. -/
+theorem micro_ack_window (s : State) (hb : Base s) (ho : Order s) (ha : Above s) (ops : List MOp)
+    (hr : ∀ o ∈ ops, o.isReset = false) (ms ms' : MState) (o : MOp) (hro : o.isReset = false)
+    (h : mrun Shape.pinned (MState.ofState s) ops = some ms) (hs : mstep Shape.pinned ms o = some ms')
+    (k : Nat) (x x' : Group) (hx : ms.sh.grp k = some x) (hx' : ms'.sh.grp k = some x') :
+    x'.ack = x.ack ∨
+    (o = .aStore ∧ x.ack ≤ x'.ack ∧ x'.ack ≤ x.consumed ∧ x'.consumed = x.consumed) := by
+  have h0 : Inv (MState.ofState s) :=
+    Inv.ofState s hb.q.ackLo hb.q.ackLe (fun g x hx => ⟨ha g x hx, ho.live hb g x hx⟩) hb.grp
+  have hi := Inv.run ops _ ms h0 hr h
+  rcases ack_step Shape.pinned hro hs k with e | ⟨e, n, ts, hs', x0, hak, hx0, h1, h2, hg'⟩
+  · left; rw [hx, hx'] at e; simpa using e
+  · right
+    rw [hx] at hx0; cases hx0
+    rw [hx'] at hg'; cases hg'
+    have hai := hi.ai
+    rw [hak] at hai
+    obtain ⟨x1, hx1, hts, hhs⟩ := hai
+    rw [hx] at hx1; cases hx1
+    refine ⟨e, ?_, ?_, rfl⟩
+    · show x.ack ≤ n; omega
+    · show n ≤ x.consumed; omega
+
+open LinVerif.FanOut.Micro in
+/-- non-vacuity of the rewinder: group 0 at consumed 9 / ack 2 is rewound to 3 while an Ack(6) is on its
+way; the Ack takes its read lock after the rewind and is ignored (positions 3 / 2), a consume then hands
+out 4 again. The same Ack taking the lock BEFORE the rewind keeps the rewind out until it is done (6 ≤ 9 is
+stored; the rewind to 3 is then outside [6, appended]: not enabled as a reset-free step). -/
+example :
+    let ms0 : MState := { sh := { appended := 9, qack := 2, grp := fun k => if k = 0 then some ⟨9, 2, false⟩ else none,
+                                  pg := fun k => if k = 0 then some ⟨9, 2⟩ else none, names := [0] },
+                          c := .idle, a := .idle, y := .idle, r := .idle, outs := [] }
+    ((mrun Shape.pinned ms0 [.wSet 0 3, .aLock 0 6, .aStore, .cLoad 0, .cWake, .cLock, .cStore, .cPut]).map
+        (fun ms => ((ms.sh.grp 0).map (fun x => (x.consumed, x.ack)), ms.outs, ms.quiet)) =
+      some (some (4, 2), [(0, 4)], true)) ∧
+    ((mrun Shape.pinned ms0 [.aLock 0 6, .wSet 0 3]).isNone = true) ∧
+    ((mrun Shape.pinned ms0 [.aLock 0 6, .aStore, .aLoadC, .aPut1, .aPut2, .wSet 0 3]).isNone = true) ∧
+    ((mrun Shape.pinned ms0 [.aLock 0 6, .aStore, .aLoadC, .aPut1, .aPut2, .wSet 0 7]).map
+        (fun ms => (ms.sh.grp 0).map (fun x => (x.consumed, x.ack))) = some (some (7, 6))) := by decide
 
 open LinVerif.FanOut.Micro in
 /-- (4c) under the interleaving: a micro-step that moves the queue ack is the final step of Sync,
